@@ -115,16 +115,23 @@ def fmul(a: float, b: float) -> float:
     return a * b
 
 
+def _finite(x) -> bool:
+    # symbolic (polynomial) values of the reference executor are always "finite"
+    if isinstance(x, (int, float)):
+        return math.isfinite(x)
+    return True
+
+
 def fadd_ok(a: float, b: float) -> bool:
-    return math.isfinite(a + b)
+    return _finite(a + b)
 
 
 def fsub_ok(a: float, b: float) -> bool:
-    return math.isfinite(a - b)
+    return _finite(a - b)
 
 
 def fmul_ok(a: float, b: float) -> bool:
-    return math.isfinite(a * b)
+    return _finite(a * b)
 
 
 def i2f(a: int) -> float:
